@@ -34,7 +34,8 @@ import (
 // that are no signature.
 //
 //	ngen <index> <cons>                       NEOHandler.SyncGenesisHeader, header.NextConsensus = hash(cons)
-//	nhdr <hdr> [| <hdr> ...]                  NEOHandler.SyncBlockHeader with that batch; hdr = <index>/<next>/<wscript>/<sigs>
+//	nhdr <hdr> [| <hdr> ...]                  NEOHandler.SyncBlockHeader with that batch; hdr = <index>/<next>/<wscript>/<sigs>[/p]
+//	                                          (/p: PrevHash = hash of the preceding header of the batch)
 //	nmsg <index> <wscript> <sigs>             neo.VerifyCrossChainMsgSig, and cross_chain_manager NEOHandler.MakeDepositProposal
 //	                                          up to the proof check
 //	nstate                                    tracked (height, descriptor)
@@ -236,6 +237,8 @@ func neoDistinctValid(d neoDesc, inv []byte, msg []byte) int {
 type neoHdrSpec struct {
 	index               uint32
 	next, wscript, sigs string
+	link                bool   // PrevHash = hash of the preceding header of the batch
+	prev                []byte // that hash (set while building the batch)
 }
 
 func (f *neoFam) buildHeader(h neoHdrSpec) ([]byte, *neo.NeoBlockHeader, []byte, neoDesc, bool) {
@@ -248,6 +251,9 @@ func (f *neoFam) buildHeader(h neoHdrSpec) ([]byte, *neo.NeoBlockHeader, []byte,
 	f.descHash(h.wscript)
 	bh := &block.BlockHeader{Version: 0, Timestamp: 1600000000 + h.index, Index: h.index, ConsensusData: uint64(h.index) * 7919, NextConsensus: next,
 		Witness: &tx.Witness{}}
+	if h.link && len(h.prev) == 32 {
+		copy(bh.PrevHash[:], h.prev)
+	}
 	nh := &neo.NeoBlockHeader{BlockHeader: bh}
 	msg, err := nh.GetMessage()
 	if err != nil {
@@ -289,14 +295,14 @@ func (f *neoFam) Exec(r *hx.Run, op []string) string {
 				continue
 			}
 			q := strings.Split(tok, "/")
-			if len(q) != 4 {
+			if len(q) != 4 && !(len(q) == 5 && q[4] == "p") {
 				return "bad-op"
 			}
 			idx, err := strconv.ParseUint(q[0], 10, 32)
 			if err != nil {
 				return "bad-op"
 			}
-			specs = append(specs, neoHdrSpec{index: uint32(idx), next: q[1], wscript: q[2], sigs: q[3]})
+			specs = append(specs, neoHdrSpec{index: uint32(idx), next: q[1], wscript: q[2], sigs: q[3], link: len(q) == 5})
 		}
 		before, had := f.tracked()
 		p := &hscommon.SyncBlockHeaderParam{ChainID: neoChainID}
@@ -306,11 +312,15 @@ func (f *neoFam) Exec(r *hx.Run, op []string) string {
 			wd  neoDesc
 		}
 		var bs []built
+		var prevHash []byte
 		for _, s := range specs {
+			s.prev = prevHash
 			raw, nh, msg, wd, ok := f.buildHeader(s)
 			if !ok {
 				return "bad-op"
 			}
+			hh := nh.Hash()
+			prevHash = append([]byte{}, hh[:]...)
 			p.Headers = append(p.Headers, raw)
 			bs = append(bs, built{nh, msg, wd})
 		}
@@ -682,6 +692,28 @@ func neoGenHdr(r *hx.Run, prefix string) {
 				case step == neoSigShapes+7: // a bad header after a good one: the whole batch is refused
 					res = r.Do(fmt.Sprintf("nhdr %d/%s/%s/%s | %d/%s/%s/-", h+1, other, cons, good, h+2, other, cons))
 					record("good-then-bad", res)
+				case step == neoSigShapes+10: // a legitimate change followed by a hash-linked FORGED child (index+1, PrevHash = parent hash)
+					_, _, att := randCons(1 + r.Rng.Intn(7))
+					for att == cons || att == other {
+						_, _, att = randCons(1 + r.Rng.Intn(7))
+					}
+					switch r.Rng.Intn(3) {
+					case 0: // no witness signatures at all, tracked script claimed
+						res = r.Do(fmt.Sprintf("nhdr %d/%s/%s/%s | %d/%s/%s/-/p", h+1, other, cons, good, h+2, att, cons))
+					case 1: // witnessed by the attacker's own script
+						da, _ := parseNeoDesc(att)
+						sa, _ := neoSigShape(r, da.m, da.keys, 0)
+						res = r.Do(fmt.Sprintf("nhdr %d/%s/%s/%s | %d/%s/%s/%s/p", h+1, other, cons, good, h+2, att, att, sa))
+					default: // witnessed by the set the parent just announced (not yet tracked)
+						do, _ := parseNeoDesc(other)
+						so, _ := neoSigShape(r, do.m, do.keys, 0)
+						res = r.Do(fmt.Sprintf("nhdr %d/%s/%s/%s | %d/%s/%s/%s/p", h+1, other, cons, good, h+2, att, other, so))
+					}
+					record("forged-linked-child", res)
+				case step == neoSigShapes+11: // a hash-linked child that IS authenticated by the tracked set: accepted, last one wins
+					_, _, o2 := randCons(1 + r.Rng.Intn(10))
+					res = r.Do(fmt.Sprintf("nhdr %d/%s/%s/%s | %d/%s/%s/%s/p", h+1, other, cons, good, h+2, o2, cons, good))
+					record("linked-child-authentic", res)
 				case step == neoSigShapes+8: // second genesis must not replace the tracked consensus
 					res = r.Do(fmt.Sprintf("ngen %d %s", h+100, other))
 					record("second-genesis", res)
